@@ -314,7 +314,18 @@ def run_case(case, ctx):
                 r0 = r1 = a if lv.startswith("fixed") else float(dm_.max() - dm_.min())
             dev0 = float(np.sum((l0 + r0 * start._get_phase_field(grid)[region] - dm_) ** 2))
             dev1 = float(np.sum((l1 + r1 * out._get_phase_field(grid)[region] - dm_) ** 2))
-            ctx.check("C04.deviation", dev1 <= dev0 * (1 + 1e-9) + 1e-12, {"deviation_start": dev0, "deviation_end": dev1}, tags)
+            tdev = tags
+            if kind == "cyl" and g["periodic_z"]:
+                # The optimiser works on unwrapped coordinates and the result is wrapped into the box afterwards.  On a periodic
+                # cylindrical grid py-pde 0.58 renders without wrapping z (recorded dependency finding), so a result that was moved
+                # by whole periods, or that reaches across the z boundary, is a different picture from the one that was optimised.
+                free_idx = [i for i in range(len(start._data_array)) if i not in cons_idx(grid)]
+                z_opt = float(calls[0]["x1"][free_idx.index(2)]) if 2 in free_idx else float(out.position[2])
+                moved = abs(z_opt - float(out.position[2])) > 1e-9
+                reach = out.radius + 3 * (out.interface_width or 0.0)
+                crosses = out.position[2] - reach < g["z"][0] or out.position[2] + reach > g["z"][1]
+                tdev = dict(tags, cyl_periodic_result_wrapped_or_across_boundary=bool(moved or crosses))
+            ctx.check("C04.deviation", dev1 <= dev0 * (1 + 1e-9) + 1e-12, {"deviation_start": dev0, "deviation_end": dev1, "returned": str(out)}, tdev)
         else:
             ctx.count("fit-region-not-observed")
         if c0 > 1e-12:
